@@ -4,6 +4,8 @@ import Driver.B62Suite
 import Driver.CoreSuite
 import Driver.RotSuite
 import Driver.CodecSuite
+import Driver.InitSuite
+import Driver.InitSpec
 /-
   vpmodel: reads lines `op<TAB>implementation observation`, prints `model observation<TAB>spec verdict`.
 -/
@@ -13,6 +15,8 @@ structure DState where
   table : TableSt := {}
   core : CoreSt := {}
   rot : RotSt := {}
+  init : ISt := {}
+  initRef : IRef := {}
 
 def stepLine (st : DState) (line : String) : DState × String :=
   let parts := line.splitOn "\t"
@@ -37,6 +41,11 @@ def stepLine (st : DState) (line : String) : DState × String :=
   | none =>
   match rotStep st.rot toks implObs with
   | some (rs, m, s) => ({ st with rot := rs }, m ++ "\t" ++ s)
+  | none =>
+  match initStep st.init toks implObs with
+  | some (is, m, _) =>
+    let (rf, sv) := refStep st.initRef toks implObs
+    ({ st with init := is, initRef := rf }, m ++ "\t" ++ sv)
   | none => (st, "bad-op\t-")
 
 partial def loop (h : IO.FS.Stream) (out : IO.FS.Stream) (st : DState) : IO Unit := do
